@@ -120,13 +120,13 @@ MM, MX = "min_segment_length", "max_segment_length"
 PEN = "(collective_alpha + vsum(collective_betas))"
 def BP(v):
     """back-pointer fact for 0-based position v (prefix length v+1): nan and CG unchanged, or a point anomaly at v, or a collective
-    anomaly [start, v+1) of admissible length realising CG(v+1)."""
+    anomaly [start, v+1) of admissible length realising CG({TC}, {TP}, v+1)."""
     a = f"optval(opt_anomaly_starts[{v}])"
-    return (f"((isnan_(opt_anomaly_starts[{v}]) and CG({v} + 1) == CG({v})) or "
+    return (f"((isnan_(opt_anomaly_starts[{v}]) and CG({TC}, {TP}, {v} + 1) == CG({TC}, {TP}, {v})) or "
             f"(not isnan_(opt_anomaly_starts[{v}]) and "
-            f"(({a} == {v} and CG({v} + 1) == CG({v}) + {PSp(v)}) or "
+            f"(({a} == {v} and CG({TC}, {TP}, {v} + 1) == CG({TC}, {TP}, {v}) + {PSp(v)}) or "
             f"(0 <= {a} and {MM} <= {v} + 1 - {a} and {v} + 1 - {a} <= {MX} and "
-            f"CG({v} + 1) == CG({a}) + PSC({TC}, {a}, {v} + 1, collective_alpha, arrid(collective_betas))))))")
+            f"CG({TC}, {TP}, {v} + 1) == CG({TC}, {TP}, {a}) + PSC({TC}, {a}, {v} + 1, collective_alpha, arrid(collective_betas))))))")
 
 
 COMMON = ("len(opt_savings) == n + 1 and len(opt_anomaly_starts) == n and never_pruned == n + min_segment_length + 1 and "
@@ -146,7 +146,7 @@ contract(
     returns="(real[n],list[(int,int)],list[(int,int)])",
     ensures={
         # C03: the cumulative score at each time is the optimum for the prefix ending there
-        "scores_are_optimal": "forall(range(1, n + 1), lambda T: result[0][T - 1] == CG(T))",
+        "scores_are_optimal": f"forall(range(1, n + 1), lambda T: result[0][T - 1] == CG({TC}, {TP}, T))",
         # C04: collective anomalies within [m, M], point anomalies of length 1, pairwise disjoint
         "collective_lengths": f"forall(range(len(result[1])), lambda q: 0 <= result[1][q][0] and result[1][q][1] <= n and "
                               f"{MM} <= result[1][q][1] - result[1][q][0] and result[1][q][1] - result[1][q][0] <= {MX})",
@@ -157,28 +157,28 @@ contract(
     invariants={
         "loop#1": {
             "common": COMMON + " and len(starts) == 0 and len(start_prune_times) == 0",
-            "G": "forall(range(0, t + 1), lambda u: opt_savings[u] == CG(u)) and forall(range(t + 1, n + 1), lambda u: opt_savings[u] == 0)",
+            "G": f"forall(range(0, t + 1), lambda u: opt_savings[u] == CG({TC}, {TP}, u)) and forall(range(t + 1, n + 1), lambda u: opt_savings[u] == 0)",
             "BP": f"forall(range(0, t), lambda v: {BP('v')}) and forall(range(t, n), lambda v: isnan_(opt_anomaly_starts[v]))",
         },
         "loop#2": {
             "common": COMMON + f" and len(starts) == len(start_prune_times) and len(ts) == n - {MM} + 1",
-            "G": f"forall(range(0, {TD2} + 1), lambda u: opt_savings[u] == CG(u)) and forall(range({TD2} + 1, n + 1), lambda u: opt_savings[u] == 0)",
+            "G": f"forall(range(0, {TD2} + 1), lambda u: opt_savings[u] == CG({TC}, {TP}, u)) and forall(range({TD2} + 1, n + 1), lambda u: opt_savings[u] == 0)",
             "BP": f"forall(range(0, {TD2}), lambda v: {BP('v')}) and forall(range({TD2}, n), lambda v: isnan_(opt_anomaly_starts[v]))",
             "J1": f"forall(range(len(starts)), lambda k: 0 <= starts[k] and starts[k] <= {TD2} - {MM} and {TD2} + 1 - starts[k] <= {MX} and "
                   "g_in[starts[k]] and g_pos[starts[k]] == k)",
             "J2": "forall(range(n + 1), lambda s: implies(g_in[s], 0 <= g_pos[s] and g_pos[s] < len(starts) and starts[g_pos[s]] == s))",
             "J3": f"forall(range(len(starts)), lambda k: start_prune_times[k] + {MM} > {TD2} + 1 and (start_prune_times[k] == never_pruned or "
                   f"(starts[k] + {MM} <= start_prune_times[k] and start_prune_times[k] <= {TD2} and "
-                  f"CG(starts[k]) + {PSc('starts[k]', 'start_prune_times[k]')} + {PEN} < CG(start_prune_times[k]))))",
+                  f"CG({TC}, {TP}, starts[k]) + {PSc('starts[k]', 'start_prune_times[k]')} + {PEN} < CG({TC}, {TP}, start_prune_times[k]))))",
             "J4": f"forall(range(n + 1), lambda s: implies(0 <= s and s <= {TD2} - {MM} and not g_in[s], {TD2} + 1 - s > {MX} or "
-                  f"(s + {MM} <= g_W[s] and g_W[s] + {MM} <= {TD2} + 1 and CG(s) + {PSc('s', 'g_W[s]')} + {PEN} < CG(g_W[s]))))",
+                  f"(s + {MM} <= g_W[s] and g_W[s] + {MM} <= {TD2} + 1 and CG({TC}, {TP}, s) + {PSc('s', 'g_W[s]')} + {PEN} < CG({TC}, {TP}, g_W[s]))))",
         },
     },
     loop_vars={"loop#2": {"g_in": "bool[n+1]", "g_pos": "int[n+1]", "g_W": "int[n+1]"}},
     ghost=[
         ("after:opt_point_saving, _, _ = optimise_savings(*",
-         f"assert CA(t + 1) >= 0 or CA(t + 1) < 0\nassert opt_point_saving == CG(t) + {PSp('t')}"),
-        ("after:opt_savings[t + 1] = savings[argmax]", "assert opt_savings[t + 1] == CG(t + 1)"),
+         f"assert CA({TC}, {TP}, t + 1) >= 0 or CA({TC}, {TP}, t + 1) < 0\nassert opt_point_saving == CG({TC}, {TP}, t) + {PSp('t')}"),
+        ("after:opt_savings[t + 1] = savings[argmax]", f"assert opt_savings[t + 1] == CG({TC}, {TP}, t + 1)"),
         ("after:opt_anomaly_starts[t] = opt_start", f"assert {BP('t')}"),
         ("after:opt_anomaly_starts[t] = t", f"assert {BP('t')}"),
         ("before:for t in ts:", "g_in = lam('bool', n + 1, lambda s: False)\ng_pos = lam('int', n + 1, lambda s: 0)\ng_W = lam('int', n + 1, lambda s: 0)"),
@@ -186,17 +186,17 @@ contract(
          "g_in = lam('bool', n + 1, lambda s: s == t - min_segment_length + 1 or g_in[s])\n"
          "g_pos = lam('int', n + 1, lambda s: ite(s == t - min_segment_length + 1, len(starts) - 1, g_pos[s]))"),
         ("after:opt_collective_saving, opt_start, candidate_savings = *",
-         f"g_star = CA({T2})\n"
+         f"g_star = CA({TC}, {TP}, {T2})\n"
          f"assert implies(0 <= g_star and {MM} <= {T2} - g_star and {T2} - g_star <= {MX} and not g_in[g_star] and not ({T2} - g_star > {MX}), "
-         f"CG({T2}) >= CG(g_W[g_star]) + {PSc('g_W[g_star]', T2)})\n"
-         f"assert implies(0 <= g_star and {MM} <= {T2} - g_star and {T2} - g_star <= {MX} and CG({T2}) == CG(g_star) + {PSc('g_star', T2)}, g_in[g_star])\n"
-         f"assert forall(range(len(starts)), lambda k: candidate_savings[k] <= CG({T2}))\n"
-         f"assert implies(0 <= g_star and {MM} <= {T2} - g_star and {T2} - g_star <= {MX} and CG({T2}) == CG(g_star) + {PSc('g_star', T2)}, "
-         f"candidate_savings[g_pos[g_star]] == CG({T2}))\n"
-         f"assert opt_collective_saving <= CG({T2}) and 0 <= opt_start and {MM} <= {T2} - opt_start and {T2} - opt_start <= {MX} and "
-         f"opt_collective_saving == CG(opt_start) + {PSc('opt_start', T2)}\n"
-         f"assert implies(0 <= g_star and {MM} <= {T2} - g_star and {T2} - g_star <= {MX} and CG({T2}) == CG(g_star) + {PSc('g_star', T2)}, "
-         f"opt_collective_saving == CG({T2}))"),
+         f"CG({TC}, {TP}, {T2}) >= CG({TC}, {TP}, g_W[g_star]) + {PSc('g_W[g_star]', T2)})\n"
+         f"assert implies(0 <= g_star and {MM} <= {T2} - g_star and {T2} - g_star <= {MX} and CG({TC}, {TP}, {T2}) == CG({TC}, {TP}, g_star) + {PSc('g_star', T2)}, g_in[g_star])\n"
+         f"assert forall(range(len(starts)), lambda k: candidate_savings[k] <= CG({TC}, {TP}, {T2}))\n"
+         f"assert implies(0 <= g_star and {MM} <= {T2} - g_star and {T2} - g_star <= {MX} and CG({TC}, {TP}, {T2}) == CG({TC}, {TP}, g_star) + {PSc('g_star', T2)}, "
+         f"candidate_savings[g_pos[g_star]] == CG({TC}, {TP}, {T2}))\n"
+         f"assert opt_collective_saving <= CG({TC}, {TP}, {T2}) and 0 <= opt_start and {MM} <= {T2} - opt_start and {T2} - opt_start <= {MX} and "
+         f"opt_collective_saving == CG({TC}, {TP}, opt_start) + {PSc('opt_start', T2)}\n"
+         f"assert implies(0 <= g_star and {MM} <= {T2} - g_star and {T2} - g_star <= {MX} and CG({TC}, {TP}, {T2}) == CG({TC}, {TP}, g_star) + {PSc('g_star', T2)}, "
+         f"opt_collective_saving == CG({TC}, {TP}, {T2}))"),
         ("before:saving_too_low = *", f"assert forall(range(0, t + 1), lambda v: {BP('v')})"),
         ("before:starts = starts[keep]", "g_spt0 = start_prune_times\ng_in0 = g_in\ng_pos0 = g_pos\ng_W0 = g_W"),
         ("after:start_prune_times = start_prune_times[keep]",
